@@ -335,34 +335,49 @@ class GetNextTasksUnbounded(Unit):
             e.overrides[conducting.WorkflowConductor.request_workflow_status] = rws
 
             def loop(en, st_, env):
+                import ast as _ast
+                from pyvc.engine import _Continue
                 xs = en.eval(st_.iter, env)
                 if not isinstance(xs, SList):
                     raise S.Unsupported("expected a symbolic list of staged entries")
                 state["xs"] = xs
+                # the loop-carried locals are found in the loop body itself, not by name:
+                # lists the body appends to (accumulators) and names it assigns the constant True (flags)
+                accs = sorted({n.func.value.id for n in _ast.walk(st_) if isinstance(n, _ast.Call)
+                               and isinstance(n.func, _ast.Attribute) and n.func.attr == "append"
+                               and isinstance(n.func.value, _ast.Name)})
+                flags = sorted({t.id for n in _ast.walk(st_) if isinstance(n, _ast.Assign)
+                                and isinstance(n.value, _ast.Constant) and n.value.value is True
+                                for t in n.targets if isinstance(t, _ast.Name)})
+                if len(accs) != 1 or len(flags) != 1:
+                    raise S.Unsupported("loop of get_next_tasks: expected one accumulator list and one failure flag, found %s / %s" % (accs, flags))
+                acc_name, flag_name = accs[0], flags[0]
+                state["names"] = (acc_name, flag_name)
                 if en.branch(xs.length > 0):
                     i = z3.Int(S.fresh_name("iter"))
                     en.assume(z3.And(0 <= i, i < xs.length))
                     elem = xs.get(i)
-                    acc = env.lookup("next_tasks")
-                    assert acc == []
+                    acc = env.lookup(acc_name)
+                    if acc != [] or env.lookup(flag_name) is not False:
+                        raise S.Unsupported("loop-carried locals are not in their initial state at loop entry")
                     state["iter"] = {"elem": elem, "acc_before": list(acc), "log_before": len(log.calls)}
                     en.assign(st_.target, elem, env)
                     try:
                         en.exec_block(st_.body, env)
-                    except __import__("pyvc.engine", fromlist=["_Continue"])._Continue:
+                    except _Continue:
                         pass
-                    state["iter"]["acc_after"] = list(env.lookup("next_tasks"))
-                    state["iter"]["flag_after"] = env.lookup("fail_on_task_rendering")
+                    state["iter"]["acc_after"] = list(env.lookup(acc_name))
+                    state["iter"]["flag_after"] = env.lookup(flag_name)
                     state["iter"]["calls"] = log.calls[state["iter"]["log_before"]:]
                 # arbitrary accumulator after all iterations
                 flag = S.mk_bool("any_iteration_failed")
                 mine = state["iter"] and state["iter"]["flag_after"]
                 if mine is True:
                     en.assume(flag.z)
-                env.locals["fail_on_task_rendering"] = flag
-                env.locals["next_tasks"] = "ACCUMULATED_OFFERS"
+                env.locals[flag_name] = flag
+                env.locals[acc_name] = "ACCUMULATED_OFFERS"
 
-            e.loop_handlers["WorkflowConductor.get_next_tasks:remediation_tasks or staged_tasks"] = loop
+            e.loop_handlers["WorkflowConductor.get_next_tasks:loop#0"] = loop
             sorted_calls = []
 
             def m_sorted(en, args, kwargs, anysym):
